@@ -16,10 +16,10 @@ from . import common
 KIND_NAME = {'H': 'molar enthalpy', 'S': 'molar entropy', 'Cp': 'molar heat capacity', 'T': 'temperature'}
 UNITS = {
     'H': ['J/mol', 'kJ/mol', 'kcal/mol', 'cal/mol', 'eV/molecule', 'MJ/kmol', 'mJ/mmol', 'kJ/kmol', 'BTU/mol',
-          'J/molecule', 'kcal/kmol', 'meV/molecule', 'GJ/Mmol', 'erg/mol', 'kW h/mol'],
+          'J/molecule', 'kcal/kmol', 'meV/molecule', 'GJ/Mmol', 'erg/mol', 'kW h/mol', 'aJ/mol', 'daJ/mol'],
     'S': ['J/mol/K', 'J/(mol K)', 'cal/mol/K', 'cal/(mol K)', 'kJ/(mol K)', 'kcal/(mol K)', 'kJ/kmol/K',
           'eV/(molecule K)', 'mJ/(mol K)', 'J/(mol mK)', 'BTU/(mol K)', 'cal/(mmol kK)'],
-    'T': ['K', 'kK', 'mK', 'hK', 'cK', 'dK', 'uK'],
+    'T': ['K', 'kK', 'mK', 'hK', 'cK', 'dK', 'uK', 'daK'],
 }
 UNITS['Cp'] = UNITS['S']
 # units of the wrong dimension, by the kind they are (mis)used for
